@@ -6,6 +6,9 @@ runner.doctest_module(path, 'dump') (and for a sample with the CLI); stdout is p
 Oracle: exactly one function per enabled doctest; its body, minus the docstring, the generated
 'from <mod> import ...' line and the '# doctest want:' comment blocks, equals the doctest's
 de-prompted lines in order without star-imports; the want comments equal the wants in order.
+Then every converted test is executed against the imported module: the unique-id event log of the
+statements it runs must equal the doctest's own (reference run), so a test that lost what it needs
+to run (for instance a name in its import line) is seen even when its body lines are all there.
 """
 import io
 import os
@@ -29,6 +32,10 @@ ASSUMPTIONS = [
     "unprefixed string line may have lost up to four leading blanks when parsed)",
     "star-import lines ('from x import *') are removed by the conversion as documented and are expected to be absent",
     "force-disabled doctests are not converted ('per enabled doctest')",
+    "a converted test is executed as the function it is (a doctest's names become function locals); the generated "
+    "programs do not depend on module-level scoping (no global statements, no exec of strings); a test whose doctest "
+    "uses top-level await cannot be executed (finding F16) and is counted apart; a statement that raises on purpose "
+    "ends the converted test there, the statements before it are compared",
 ]
 NSHARDS = {'quick': 16, 'thorough': 16}
 
@@ -36,7 +43,8 @@ NSHARDS = {'quick': 16, 'thorough': 16}
 def required_cells(tier):
     return ['functions-match', 'body-lines-equal', 'want-comments-equal', 'star-import-removed',
             'star-import-nested-removed', 'dump-compiles', 'disabled-omitted',
-            'two-blocks', 'multi-line-want', 'cli', 'kind:mlstr', 'kind:deco', 'kind:await', 'kind:comment', 'kind:mlstr_trailing', 'kind:markercomment']
+            'two-blocks', 'multi-line-want', 'cli', 'converted-test-runs-the-same-statements',
+            'converted-test-uses-private-module-names', 'kind:mlstr', 'kind:deco', 'kind:await', 'kind:comment', 'kind:mlstr_trailing', 'kind:markercomment']
 
 
 AWAIT_ERRORS = ("'await' outside async function", "'async with' outside async function",
@@ -64,13 +72,16 @@ def gen_doctest(rng, uid):
     layout = gp.Layout(rng, base_indent=0, wrapper='freeform', want_prob=0.6, prose_prob=0.0,
                        blank_prob=rng.choice([0.0, 0.2]))
     doc, info = layout.render(stmts, ref.outs)
+    info['ref_T'] = list(ref.T)
     return stmts, doc, info, star
 
 
 def gen_module(rng, uid):
     funcs = []
     expect = []      # per enabled doctest: dict(stmts, wants, callname)
-    src = ['import asyncio', '']
+    # the module defines what the doctests use (event log T, emit / quiet ..., two private names), so that the
+    # converted tests can be executed and the statements they run compared with the doctest's own
+    src = ['import asyncio', '', 'T = []', gp.PRELUDE, '']
     n = rng.randint(1, 4)
     feats = set()
     for k in range(n):
@@ -84,7 +95,7 @@ def gen_module(rng, uid):
                 stmts, doc, info, star = gen_doctest(random.Random(rng.random()), '%s_%d_%d' % (uid, k, b))
                 if 'mixed-continuation-then-want' in info['features']:
                     stmts = [gp.Stmt(['emit(1)'], 'emit', 1, is_expr=True)]
-                    doc, info, star = '>>> emit(1)\ne1', {'wants': {0: ['e1']}, 'features': []}, False
+                    doc, info, star = '>>> emit(1)\ne1', {'wants': {0: ['e1']}, 'features': [], 'ref_T': [1]}, False
             blocks.append((stmts, doc, info, star))
         method = rng.random() < 0.3
         if method:
@@ -108,7 +119,8 @@ def gen_module(rng, uid):
                 feats.add('disabled-omitted')
             else:
                 wants = [info['wants'][si] for si in sorted(info['wants'])]
-                expect.append({'callname': callname, 'num': b, 'stmts': stmts, 'wants': wants, 'star': star})
+                expect.append({'callname': callname, 'num': b, 'stmts': stmts, 'wants': wants, 'star': star,
+                               'ref_T': info['ref_T']})
             if star:
                 feats.add('star-import-removed')
             if star == 'nested' and not is_disabled:
@@ -150,9 +162,9 @@ def norm_code(lines):
     return [ln.lstrip() for ln in lines if ln.strip()]
 
 
-def check_dump_text(ctx, text, expect, modname, src, case, via):
-    def bad(mech, msg):
-        ctx.violation(mech, '%s (via %s)\n--- module ---\n%s\n--- dump ---\n%s' % (msg, via, src, text), case)
+def check_dump_text(ctx, text, expect, modname, src, case, via, mod=None):
+    def bad(mech, msg, **kw):
+        ctx.violation(mech, '%s (via %s)\n--- module ---\n%s\n--- dump ---\n%s' % (msg, via, src, text), case, **kw)
         return False
 
     try:
@@ -221,6 +233,49 @@ def check_dump_text(ctx, text, expect, modname, src, case, via):
             ctx.cell('multi-line-want')
         if any(gp.want_is_layoutable(w) for w in exp['wants']) and any(len(st.lines) > 1 for st in exp['stmts']):
             ctx.nontrivial(src + exp['callname'])
+    if mod is not None:
+        return run_converted(ctx, fns, expect, mod, bad)
+    return True
+
+
+def run_converted(ctx, fns, expect, mod, bad):
+    """
+    Execute every converted test (in this process, against the imported module) and compare the statements it runs
+    - the unique-id event log T of the module - with the doctest's own log from the reference run.
+    """
+    for f, exp in zip(fns, expect):
+        try:
+            code = compile(ast.Module(body=[f], type_ignores=[]), '<dumped %s>' % f.name, 'exec')
+        except SyntaxError as ex:
+            if any(m in str(ex) for m in AWAIT_ERRORS):
+                ctx.cell('converted-test-not-runnable:await (F16)')
+                continue
+            return bad('dump-invalid-python', 'function %s does not compile on its own: %r' % (f.name, ex))
+        ns = {'__name__': 'dumped_tests'}
+        exec(code, ns)
+        del mod.T[:]
+        raised = None
+        try:
+            with contextlib.redirect_stdout(io.StringIO()), contextlib.redirect_stderr(io.StringIO()):
+                ns[f.name]()
+        except Exception as ex:
+            raised = ex
+        got_T = list(mod.T)
+        ctx.event('converted_tests_executed')
+        expected_excs = {st.expected_exc for st in exp['stmts'] if st.expected_exc}
+        if raised is not None:
+            if type(raised).__name__ in expected_excs and got_T == exp['ref_T'][:len(got_T)]:
+                # a statement that raises on purpose (its want is the traceback): the converted test stops there
+                ctx.cell('converted-test-stops-at-expected-exception')
+                continue
+            return bad('converted-test-raised', 'the converted test %s raises %s: %s; it ran the statements %r, the doctest '
+                       'runs %r' % (f.name, type(raised).__name__, raised, got_T, exp['ref_T']), exc=type(raised).__name__)
+        if got_T != exp['ref_T']:
+            return bad('converted-test-trace', 'the converted test %s runs the statements %r, the doctest runs %r' % (
+                f.name, got_T, exp['ref_T']))
+        ctx.cell('converted-test-runs-the-same-statements')
+        if any(st.kind == 'usepriv' for st in exp['stmts']):
+            ctx.cell('converted-test-uses-private-module-names')
     return True
 
 
@@ -245,7 +300,14 @@ def check_module(ctx, idx, seed, cli=False):
         except BaseException as ex:
             ctx.violation('dump-raised', "doctest_module(path, 'dump') raised %r\n--- module ---\n%s" % (ex, src), case)
             return
-        ok = check_dump_text(ctx, buf.getvalue().rstrip('\n'), expect, modname, src, case, 'runner.doctest_module')
+        # the module the converted tests import from ('from <modname> import ...')
+        import importlib.util
+        spec = importlib.util.spec_from_file_location(modname, path)
+        mod = importlib.util.module_from_spec(spec)
+        sys.modules[modname] = mod
+        with contextlib.redirect_stdout(io.StringIO()):
+            spec.loader.exec_module(mod)
+        ok = check_dump_text(ctx, buf.getvalue().rstrip('\n'), expect, modname, src, case, 'runner.doctest_module', mod=mod)
         if ok and cli:
             ctx.evaluation()
             p = subprocess.run([sys.executable, '-m', 'xdoctest', path, 'dump', '--style=google', '--verbose=0'],
@@ -287,7 +349,8 @@ def classify(v):
 
 LEVEL_TEXT = ("Exploration: hundreds/thousands of generated modules are converted by the real dump command; the output is "
               "parsed with ast and each function body is compared line by line with the de-prompted doctest, the want comment "
-              "blocks with the wants.")
+              "blocks with the wants; every converted test is then executed and the statements it runs (unique-id event log) "
+              "are compared with the doctest's own.")
 LEVEL_NOTE = ("Trusted: ast.parse + compile() for 'valid Python'; the generator's statement list as the ground truth of what the doctest "
               "holds.")
-TECHNIQUE = "runtime monitor: stdout of the dump command parsed with ast and compared line-by-line with the generator's statement list (conservation of statements and wants)"
+TECHNIQUE = "runtime monitor: stdout of the dump command parsed with ast and compared line-by-line with the generator's statement list (conservation of statements and wants); converted tests executed, their unique-id event log compared with the doctest's reference run"
